@@ -5,6 +5,10 @@ use std::io::{self, BufRead, Write};
 use std::panic::{catch_unwind, AssertUnwindSafe};
 
 mod c07;
+mod c16;
+mod c17;
+mod c02;
+mod c11;
 mod c19;
 mod ring;
 mod sched;
@@ -22,6 +26,10 @@ pub trait Interp {
 fn make(prop: &str) -> Option<Box<dyn Interp>> {
     match prop {
         "C07" => Some(Box::new(c07::C07::default())),
+        "C16" => Some(Box::new(c16::C16::default())),
+        "C17" => Some(Box::new(c17::C17::default())),
+        "C02" => Some(Box::new(c02::Nest::default())),
+        "C11" => Some(Box::new(c11::C11::default())),
         "C19" => Some(Box::new(c19::C19::default())),
         "C04" | "C05" | "C06" | "C13" | "C14" => Some(Box::new(ring::Ring::default())),
         _ => None,
